@@ -44,7 +44,21 @@ fn inputs() -> &'static Inputs {
                         inp.u64s.insert(id, rest.parse().unwrap());
                     }
                     "cfg" => {
-                        inp.cfgs.insert(id, rest.to_string());
+                        // "\n" and "\\" escapes (configuration strings may span several lines)
+                        let mut s = String::new();
+                        let mut it = rest.chars();
+                        while let Some(c) = it.next() {
+                            if c == '\\' {
+                                match it.next() {
+                                    Some('n') => s.push('\n'),
+                                    Some(o) => s.push(o),
+                                    None => {}
+                                }
+                            } else {
+                                s.push(c);
+                            }
+                        }
+                        inp.cfgs.insert(id, s);
                     }
                     _ => {}
                 }
